@@ -186,7 +186,7 @@ class FX(object):
     pass
 
 
-FIXTURE_NAMES = ['lit', 'I_shl', 'I_add', 'I_push', 'I_pop', 'I_moves', 'I_sete', 'I_div', 'I_sse', 'I_rep67', 'I_popad', 'K', 'w', 'T', 'U', 'Q', 'Q2', 'C', 'pc', 'regs', 'sys.path']
+FIXTURE_NAMES = ['lit', 'I_shl', 'I_add', 'I_push', 'I_pop', 'I_moves', 'I_sete', 'I_div', 'I_sse', 'I_rep67', 'I_popad', 'I_movecx3', 'I_rep', 'K', 'K2', 'w', 'T', 'U', 'Q', 'Q2', 'C', 'pc', 'regs', 'sys.path']
 
 
 def build_fixtures():
@@ -208,7 +208,10 @@ def build_fixtures():
     f.I_sse = dis(bytes.fromhex('f30f10c1'))  # movss xmm0, xmm1: the mnemonic depends on the mandatory prefix kept in .prefix
     f.I_rep67 = dis(bytes.fromhex('67f3aa'))   # rep stosb with the address-size prefix
     f.I_popad = dis(bytes.fromhex('61'))
+    f.I_movecx3 = dis(bytes.fromhex('b903000000'))
+    f.I_rep = dis(bytes.fromhex('f3aa'))
     f.K = E.ExprInt32(0x10001)                 # a constant object the caller shares with the state of m2 (ecx)
+    f.K2 = E.ExprInt32(0x20)                   # another shared constant: the time-stamp counter of m2
     f.w = E.ExprId('w')
     f.T = E.ExprOp('+', E.ExprOp('+', S.eax, f.w), E.ExprInt32(0))    # shared tree over a module-level register and w
     f.U = E.ExprOp('+', f.w, E.ExprInt32(1))
@@ -227,6 +230,7 @@ def build_fixtures():
     m2.pool[S.ebx] = E.ExprInt32(0)
     m2.pool[f.w] = E.ExprInt32(7)
     m2.pool[S.ecx] = f.K
+    m2.pool[S.tsc1] = f.K2
     m2.pool[E.ExprMem(E.ExprInt32(0x2000))] = E.ExprInt32(7)
     m2.pool[S.es] = E.ExprInt(MI.uint16(0x23))
     # nodes whose memo attributes are watched (hidden state): every node of the fixture expressions,
@@ -248,7 +252,7 @@ def build_fixtures():
         if isinstance(e, E.ExprCompose):
             for a, _, _ in e.args:
                 walk(a)
-    for e in [f.w, f.T, f.U, f.Q, f.Q2, f.C, f.pc, f.K] + f.regs:
+    for e in [f.w, f.T, f.U, f.Q, f.Q2, f.C, f.pc, f.K, f.K2] + f.regs:
         walk(e)
     for m in f.m[1:]:
         for k, v in sorted(m.pool.pool_id.items(), key=lambda kv: kv[0].name):
@@ -406,6 +410,7 @@ def _calls():
         'emul_pp_m1': ('write', 1, lambda f: emul(f, 1, [f.I_push, f.I_pop])),
         'emul_es_m1': ('write', 1, lambda f: emul(f, 1, [f.I_moves])),
         'emul_sete_m1': ('write', 1, lambda f: emul(f, 1, [f.I_sete])),
+        'emul_rep3_m2': ('write', 2, lambda f: emul(f, 2, [f.I_movecx3, f.I_rep])),
         'emul_div_m2': ('write', 2, lambda f: emul(f, 2, [f.I_div])),
         'evi_setw_m1': ('write', 1, lambda f: f.m[1].eval_instr([E.ExprAff(f.w, E.ExprInt32(7))])),
     }
